@@ -62,6 +62,154 @@ private theorem unpack_le (m : List Bool) (bs g r : Bytes) (h : unpackBytes m bs
           have := ih bs g' r' hu
           rw [← h.2]; simp; omega
 
+/-! ### built-in types never produce input -/
+private theorem iterDec_le (f : Bytes → Except Err (Val × Bytes)) (hf : ∀ bs v r, f bs = .ok (v, r) → r.length ≤ bs.length) :
+    ∀ (k : Nat) (bs : Bytes) (vs : List Val) (r : Bytes), iterDec f k bs = .ok (vs, r) → r.length ≤ bs.length
+  | 0, bs, vs, r, h => by simp [iterDec] at h; rw [h.2]; exact Nat.le_refl _
+  | k + 1, bs, vs, r, h => by
+    simp only [iterDec] at h
+    cases h1 : f bs with
+    | error x => simp [h1] at h
+    | ok p =>
+      obtain ⟨v, r1⟩ := p
+      cases h2 : iterDec f k r1 with
+      | error x => simp [h1, h2] at h
+      | ok q =>
+        obtain ⟨vs', r2⟩ := q
+        simp only [h1, h2, Except.ok.injEq, Prod.mk.injEq] at h
+        have a := hf bs v r1 h1
+        have b := iterDec_le f hf k r1 vs' r2 h2
+        rw [← h.2]; omega
+
+private theorem decB_le (l : BLeaf) (bs r : Bytes) (n : Nat) (h : decB l bs = .ok (n, r)) : r.length ≤ bs.length := by
+  cases l with
+  | u32 => exact decInt_le 4 .le bs r n h
+  | pg =>
+    simp only [decB] at h
+    cases bs with
+    | nil => simp at h
+    | cons m rr =>
+      simp only at h
+      cases hu : unpackBytes (natToBits 8 m.toNat) rr with
+      | error e => simp [hu] at h
+      | ok p =>
+        obtain ⟨g, r'⟩ := p
+        simp only [hu, Except.ok.injEq, Prod.mk.injEq] at h
+        have := unpack_le _ rr g r' hu
+        rw [← h.2]; simp; omega
+  | bool32 =>
+    simp only [decB] at h
+    cases hd : decInt 4 .le bs with
+    | error x => simp [hd] at h
+    | ok p => obtain ⟨m, r'⟩ := p; simp only [hd, Except.ok.injEq, Prod.mk.injEq] at h; rw [← h.2]; exact decInt_le 4 .le bs r' m hd
+  | dt =>
+    simp only [decB] at h
+    cases hd : decInt 4 .le bs with
+    | error x => simp [hd] at h
+    | ok p =>
+      obtain ⟨m, r'⟩ := p
+      simp only [hd] at h
+      split at h
+      · simp only [Except.ok.injEq, Prod.mk.injEq] at h; rw [← h.2]; exact decInt_le 4 .le bs r' m hd
+      · cases h
+
+private theorem decBs_le : ∀ (ls : List BLeaf) (bs : Bytes) (vs : List Val) (r : Bytes), decBs ls bs = .ok (vs, r) → r.length ≤ bs.length
+  | [], bs, vs, r, h => by simp [decBs] at h; rw [h.2]; exact Nat.le_refl _
+  | l :: ls, bs, vs, r, h => by
+    simp only [decBs] at h
+    cases h1 : decB l bs with
+    | error x => simp [h1] at h
+    | ok p =>
+      obtain ⟨n, r1⟩ := p
+      cases h2 : decBs ls r1 with
+      | error x => simp [h1, h2] at h
+      | ok q =>
+        obtain ⟨vs', r2⟩ := q
+        simp only [h1, h2, Except.ok.injEq, Prod.mk.injEq] at h
+        have a := decB_le l bs r1 n h1
+        have b := decBs_le ls r1 vs' r2 h2
+        rw [← h.2]; omega
+
+private theorem decSent_le (ls : List BLeaf) : ∀ (fuel : Nat) (bs : Bytes) (vs : List Val) (r : Bytes),
+    decSent ls fuel bs = .ok (vs, r) → r.length ≤ bs.length
+  | 0, bs, vs, r, h => by simp [decSent] at h
+  | fuel + 1, bs, vs, r, h => by
+    simp only [decSent] at h
+    cases h0 : decInt 4 .le bs with
+    | error x => simp [h0] at h
+    | ok p =>
+      obtain ⟨id, r0⟩ := p
+      have a0 := decInt_le 4 .le bs r0 id h0
+      simp only [h0] at h
+      split at h
+      · simp only [Except.ok.injEq, Prod.mk.injEq] at h; rw [← h.2]; exact a0
+      · cases h1 : decBs ls r0 with
+        | error x => simp [h1] at h
+        | ok q =>
+          obtain ⟨fs, r1⟩ := q
+          cases h2 : decSent ls fuel r1 with
+          | error x => simp [h1, h2] at h
+          | ok q2 =>
+            obtain ⟨vs', r2⟩ := q2
+            simp only [h1, h2, Except.ok.injEq, Prod.mk.injEq] at h
+            have a := decBs_le ls r0 fs r1 h1
+            have b := decSent_le ls fuel r1 vs' r2 h2
+            rw [← h.2]; omega
+
+private theorem decTuple_le (ls : List BLeaf) (bs : Bytes) (v : Val) (r : Bytes) (h : decTuple ls bs = .ok (v, r)) : r.length ≤ bs.length := by
+  simp only [decTuple] at h
+  cases h1 : decBs ls bs with
+  | error x => simp [h1] at h
+  | ok q =>
+    obtain ⟨fs, r1⟩ := q
+    simp only [h1, Except.ok.injEq, Prod.mk.injEq] at h
+    rw [← h.2]; exact decBs_le ls bs fs r1 h1
+
+private theorem decSplines_le (bs : Bytes) (vs : List Val) (r : Bytes) (h : decSplines bs = .ok (vs, r)) : r.length ≤ bs.length := by
+  simp only [decSplines] at h
+  cases h0 : decInt 4 .le bs with
+  | error x => simp [h0] at h
+  | ok p =>
+    obtain ⟨n, r0⟩ := p
+    have a0 := decInt_le 4 .le bs r0 n h0
+    simp only [h0] at h
+    cases n with
+    | zero => simp only [Except.ok.injEq, Prod.mk.injEq] at h; rw [← h.2]; exact a0
+    | succ k =>
+      simp only at h
+      cases h1 : decTuple [.u32, .u32, .u32] r0 with
+      | error x => simp [h1] at h
+      | ok q =>
+        obtain ⟨pv, r1⟩ := q
+        cases h2 : iterDec (decTuple [.u32]) k r1 with
+        | error x => simp [h1, h2] at h
+        | ok q2 =>
+          obtain ⟨ps, r2⟩ := q2
+          simp only [h1, h2, Except.ok.injEq, Prod.mk.injEq] at h
+          have a := decTuple_le _ r0 pv r1 h1
+          have b := iterDec_le (decTuple [.u32]) (fun bs v r hh => decTuple_le _ bs v r hh) k r1 ps r2 h2
+          rw [← h.2]; omega
+
+theorem decPrim_no_growth (name : String) (bs r : Bytes) (v : Val) (h : decPrim name bs = .ok (v, r)) : r.length ≤ bs.length := by
+  unfold decPrim at h
+  cases hk : primKind name with
+  | achDone =>
+    simp only [hk] at h
+    cases h1 : decSent achDoneFields (bs.length + 1) bs with
+    | error x => simp [h1] at h
+    | ok q => obtain ⟨vs, r1⟩ := q; simp only [h1, Except.ok.injEq, Prod.mk.injEq] at h; rw [← h.2]; exact decSent_le _ _ bs vs r1 h1
+  | achProg =>
+    simp only [hk] at h
+    cases h1 : decSent achProgFields (bs.length + 1) bs with
+    | error x => simp [h1] at h
+    | ok q => obtain ⟨vs, r1⟩ := q; simp only [h1, Except.ok.injEq, Prod.mk.injEq] at h; rw [← h.2]; exact decSent_le _ _ bs vs r1 h1
+  | splines =>
+    simp only [hk] at h
+    cases h1 : decSplines bs with
+    | error x => simp [h1] at h
+    | ok q => obtain ⟨vs, r1⟩ := q; simp only [h1, Except.ok.injEq, Prod.mk.injEq] at h; rw [← h.2]; exact decSplines_le bs vs r1 h1
+  | other => simp [hk] at h
+
 theorem decLeaf_no_growth (l : Leaf) (bs r : Bytes) (v : Val) (h : decLeaf l bs = .ok (v, r)) : r.length ≤ bs.length := by
   cases l with
   | int k e =>
@@ -156,7 +304,7 @@ theorem decLeaf_no_growth (l : Leaf) (bs r : Bytes) (v : Val) (h : decLeaf l bs 
         simp only [hu, Except.ok.injEq, Prod.mk.injEq] at h
         have := unpack_le _ rr g r' hu
         rw [← h.2]; simp; omega
-  | prim nm => simp [decLeaf] at h
+  | prim nm => simp only [decLeaf] at h; exact decPrim_no_growth nm bs r v h
 
 theorem iterDec_no_growth (f : Bytes → Except Err (Val × Bytes)) (hf : ∀ bs v r, f bs = .ok (v, r) → r.length ≤ bs.length) :
     ∀ (k : Nat) (bs : Bytes) (vs : List Val) (r : Bytes), iterDec f k bs = .ok (vs, r) → r.length ≤ bs.length := by
